@@ -18,7 +18,7 @@ from mc.ref import typing as rt
 PROPERTY = "C03"
 RULE = (
     "every string classified valid by the reference recogniser among: `$`.T^<=k token "
-    "strings, all single-edit neighbours of the 190-query corpus, every corpus query with "
+    "strings, all single-edit neighbours of the 190-query corpus, every corpus query with one token (token pair in thorough) inserted at every position, every corpus query with "
     "blank space (4 kinds) inserted at every position (pairs of positions in thorough); "
     "plus exhaustive terminals: every Unicode scalar value as name-first and name-char, "
     "every character raw and every \\\\uXXXX escape in both quote styles, number spellings "
